@@ -17,7 +17,9 @@ Obs == ndJsonDeserialize(ObsFile)
 NObs == Len(Obs)
 W == 16
 
-Flags == <<"res_bytes", "res_equal", "res_presence", "env_header", "env_cells", "env_spare", "env_content", "reeval_differs", "crosseval_differs">>
+Flags == <<"res_bytes", "res_equal", "res_presence", "env_header", "env_cells", "env_spare", "env_content", "reeval_differs", "crosseval_differs", "kept_result_changed">>
+(* kept_result_changed (machine programs): the collection the first evaluation returned, kept by the caller, projects     *)
+(* differently after later evaluations of other inputs - the result was not the caller's own                             *)
 (* crosseval_differs (machine programs only): the compiled expression, reused on OTHER resources and OTHER variable   *)
 (* values, disagrees with a freshly compiled one - it kept something of its first evaluation                          *)
 Changed(m) == SelectSeq(Flags, LAMBDA f : Has(m, f) /\ m[f])
